@@ -80,6 +80,13 @@ def firstRule (t : Expr) : Option Expr :=
 /-- node constructor that rewrites by the rule table (one step at the root, like `simplifications.simplify` / `claripy.If`) -/
 def mkRules (op : Op) (args : List Expr) : Expr := (firstRule (.app op args)).getD (.app op args)
 
+/-- `Not(c)` as the real constructor builds it: the negation table, then the simplifier of the node it produced
+(`Not(true != q)` is `true == q`, which the equality simplifier turns into `q`) -/
+def mkNotR (e : Expr) : Expr :=
+  match mkNot e with
+  | .app op args => mkRules op args
+  | x => x
+
 /-! ### burrow_ite -/
 def isLeaf : Expr → Bool
   | .app _ _ => false
